@@ -203,6 +203,71 @@ pub fn run(tier: Tier, seed: u64) -> i32 {
     for pk in private_keys(seed, true) {
         keys.push((pk, "pk-alphabet"));
     }
+    // keys that collide with N or with 0 under a word-wise FOLD (xor / wrapping sum of 1,2,4,8,16-byte words):
+    // what a "constant-time" comparison that accumulates with the wrong operator confuses
+    for wsz in [1usize, 2, 4, 8, 16] {
+        let nw = 32 / wsz;
+        // transpositions of N's words (all permutations for 8-byte words and for 4-byte words a strided subset)
+        for i in 0..nw {
+            for j in (i + 1)..nw {
+                let mut k = N_LE;
+                for t in 0..wsz {
+                    k.swap(i * wsz + t, j * wsz + t);
+                }
+                if k != N_LE {
+                    keys.push((k, "N with two words swapped"));
+                }
+            }
+        }
+        // rotations of N's words
+        for r in 1..nw {
+            let mut k = [0u8; 32];
+            for w in 0..nw {
+                k[((w + r) % nw) * wsz..((w + r) % nw) * wsz + wsz].copy_from_slice(&N_LE[w * wsz..w * wsz + wsz]);
+            }
+            if k != N_LE {
+                keys.push((k, "N with its words rotated"));
+            }
+        }
+        // the fold value alone in one word, everything else zero (xor fold and wrapping-sum fold)
+        let mut xor = vec![0u8; wsz];
+        let mut sum = vec![0u8; wsz];
+        for w in 0..nw {
+            let mut carry = 0u16;
+            for t in 0..wsz {
+                xor[t] ^= N_LE[w * wsz + t];
+                let s = sum[t] as u16 + N_LE[w * wsz + t] as u16 + carry;
+                sum[t] = s as u8;
+                carry = s >> 8;
+            }
+        }
+        for fold in [&xor, &sum] {
+            for pos in 0..nw {
+                let mut k = [0u8; 32];
+                k[pos * wsz..pos * wsz + wsz].copy_from_slice(fold);
+                keys.push((k, "fold of N's words placed in one word"));
+            }
+        }
+        // two equal words, rest zero: folds to zero under xor
+        for (i, j) in [(0usize, 1usize), (0, nw - 1), (nw / 2, nw - 1)] {
+            if i != j {
+                let mut k = [0u8; 32];
+                for t in 0..wsz {
+                    k[i * wsz + t] = 0xA5 ^ t as u8;
+                    k[j * wsz + t] = 0xA5 ^ t as u8;
+                }
+                keys.push((k, "two equal words, rest zero (xor-folds to 0)"));
+                // and a pair that sums to zero
+                let mut k2 = [0u8; 32];
+                k2[i * wsz] = 1;
+                for t in 0..wsz {
+                    k2[j * wsz + t] = 0xFF;
+                }
+                keys.push((k2, "two words summing to 0, rest zero"));
+            }
+        }
+    }
+    keys.retain(|(k, _)| !(k.iter().all(|b| *b == 0)) || true);
     for (k, origin) in &keys {
         if check_key(&report, k, origin) {
             match want(k) {
@@ -406,6 +471,7 @@ pub fn run(tier: Tier, seed: u64) -> i32 {
     report.sample("key", json!({"integer": 183, "le_bytes": hex(&le32_from_u64(183)), "expected": "accepted and returned unchanged"}));
     report.sample("key", json!({"integer": "N", "le_bytes": hex(&N_LE), "expected": "Err(PublicKeyModLargeSafePrimeIsZero)"}));
     report.sample("key", json!({"integer": "N with byte 0 zeroed", "expected": "accepted"}));
+    report.space("keys colliding with N or 0 under xor/sum folds of 1,2,4,8,16-byte words (word transpositions and rotations of N, the fold value alone in a word, cancelling word pairs)");
     report.space("every array differing from 0 or N in exactly one byte (2x32x255) or one bit; N+-d, N+-2^k, 2N mod 2^256, 2^256-1, all powers of two, private-key alphabet");
     report.space("server's own B steered to 0 (must be refused), 1, 183, family members, N-1 through a chosen verifier and scripted b");
     report.assume("the rest of the 2^256 space is represented by the alphabets");
